@@ -165,18 +165,24 @@ Theorem C18_generated_block_marks :
 Proof. exact generated_block_marks. Qed.
 Print Assumptions C18_generated_block_marks.
 
-(* DESIGN §9 #18 *)
-Theorem C18_static_child_inherits_marks_refuted :
-  exists eb s t ls body blk rho,
-    In blk (item_blocks eb s (DBlock t ls body))
-    /\ eb_marks eb = m1
-    /\ xb_marks (xb_body blk) = []
-    /\ map (fun a => fst (xvalue rho (snd a)))
-           (xc_attrs (xb_content (mkSchema [(str_x, false)] []) (xb_body blk))) = [VStr str_x].
-Proof. exact static_child_inherits_marks_refuted. Qed.
-Print Assumptions C18_static_child_inherits_marks_refuted.
+(* everything Content exposes of an expandBody carries the body's value marks *)
+Theorem C18_content_attrs_marked :
+  forall s eb a rho,
+    In a (xc_attrs (eb_content s eb)) -> exists v, fst (xvalue rho (snd a)) = with_marks v (eb_marks eb).
+Proof. exact content_attrs_marked. Qed.
+Print Assumptions C18_content_attrs_marked.
 
-(* DESIGN §9 #9 *)
+(* DESIGN §9 #18 (repaired in /repo): static blocks nested in generated content inherit the marks *)
+Theorem C18_static_child_inherits_marks :
+  forall eb s t ls body blk,
+    In blk (item_blocks eb s (DBlock t ls body)) ->
+    xb_marks (xb_body blk) = eb_marks eb
+    /\ (forall s' a rho, In a (xc_attrs (xb_content s' (xb_body blk))) ->
+          exists v, fst (xvalue rho (snd a)) = with_marks v (eb_marks eb)).
+Proof. exact static_child_inherits_marks. Qed.
+Print Assumptions C18_static_child_inherits_marks.
+
+(* DESIGN §9 #9 (open, inherent): a marked EMPTY for_each leaves no trace *)
 Theorem C18_marked_empty_for_each_leaves_trace_refuted :
   exists b S rho c c',
     c = [mkFrame (Some [(str_l, VMark m1 (VList TStr []))]) None]
@@ -186,16 +192,14 @@ Theorem C18_marked_empty_for_each_leaves_trace_refuted :
 Proof. exact marked_empty_for_each_leaves_trace_refuted. Qed.
 Print Assumptions C18_marked_empty_for_each_leaves_trace_refuted.
 
-(* DESIGN §9 #10 *)
-Theorem C18_partial_remain_keeps_marks_refuted :
-  exists eb s1' s2 rho,
-    eb_marks eb = m1
-    /\ eb_marks (snd (eb_partial_content s1' eb)) = []
-    /\ map (fun a => fst (xvalue rho (snd a))) (xc_attrs (eb_content s2 eb)) = [VMark m1 (VStr str_x)]
-    /\ map (fun a => fst (xvalue rho (snd a)))
-           (xc_attrs (eb_content s2 (snd (eb_partial_content s1' eb)))) = [VStr str_x].
-Proof. exact partial_remain_keeps_marks_refuted. Qed.
-Print Assumptions C18_partial_remain_keeps_marks_refuted.
+(* DESIGN §9 #10 (repaired in /repo): the remaining body of PartialContent keeps the marks *)
+Theorem C18_partial_remain_keeps_marks :
+  (forall s eb, eb_marks (snd (eb_partial_content s eb)) = eb_marks eb)
+  /\ (forall s x, xb_marks (snd (xb_partial_content s x)) = xb_marks x)
+  /\ (forall s s2 eb a rho, In a (xc_attrs (eb_content s2 (snd (eb_partial_content s eb)))) ->
+         exists v, fst (xvalue rho (snd a)) = with_marks v (eb_marks eb)).
+Proof. exact partial_remain_keeps_marks. Qed.
+Print Assumptions C18_partial_remain_keeps_marks.
 
 (* the side condition [conforms] is needed *)
 Theorem C18_expand_equals_unroll_without_conforms_refuted :
